@@ -18,7 +18,9 @@ RULE = (
     "F = write_config under the old tree; F' = F without every '# default:' line and the assignment after it.  Clause 1 "
     "(mutation = none), for policies sdkconfig and kconfig: fresh instances loading F and F' have equal snapshots after the "
     "load and after every edit of the same generated edit sequence, and every unmarked entry of F on a prompted option is a "
-    "user value (user pick for choice members).  Clause 2 (mutation: default value / default condition / range / added "
+    "user value (user pick for choice members); in 30 % of these cases F is additionally MERGED (replace=False) on top of a "
+    "generated defaults file, the way kconfgen loads sdkconfig.defaults and then sdkconfig: an option that already has a user "
+    "value from the first file is not judged against the default-marked entry of the second.  Clause 2 (mutation: default value / default condition / range / added "
     "depends on / added option / removed option / conditional prompt / added or removed choice member): policy kconfig == "
     "loading F' under the new tree, now and after the edits; policy sdkconfig: every default-marked entry on an option that "
     "is prompted, visible, not under an active select / imply / set / set default, with a stored value that is valid and "
@@ -53,6 +55,7 @@ def _cases(draw):
         "ops": history,
         "edits": edits,
         "mutation": [d.pick(MUTATIONS), d.int(0, 10**6), d.int(0, 10**6), d.int(0, 10**6)],
+        "preload": d.chance(30),
         "mutation2": [d.pick(("default-value", "default-value", "default-cond", "range")), d.int(0, 10**6), d.int(0, 10**6), d.int(0, 10**6)] if d.chance(40) else None,
         "parser": 2 if d.chance(15) else 1,
     }
@@ -366,6 +369,33 @@ def check(case) -> Result:
                 rep = _reported(a)
                 b = _load(new, d, f"b-{policy}", parser, policy, Fp)
                 runs[policy] = (a, b, rep)
+
+            # ---------------- merge on top of a defaults file (what kconfgen does: sdkconfig.defaults, then sdkconfig) ----
+            if desc == "none" and case.get("preload") and case["files"] and case["files"][0]:
+                stage = "merge-after-defaults-file"
+                res.label("merge-after-defaults-file")
+                for policy in ("sdkconfig", "kconfig"):
+                    sd = os.path.join(d, f"m-{policy}")
+                    os.makedirs(sd, exist_ok=True)
+                    km = kc.build(new, sd, parser=parser, policy=policy)
+                    hp = os.path.join(sd, "sdkconfig.defaults")
+                    with open(hp, "w") as f:
+                        f.write(ops.render_hand_file(new, case["files"][0]))
+                    km.load_config(hp)
+                    had_user = {s.name for s in km.unique_defined_syms if s._user_value is not None and s.choice is None}
+                    fp = os.path.join(sd, "sdkconfig")
+                    with open(fp, "w") as f:
+                        f.write(F)
+                    km.report.reset()
+                    km.load_config(fp, replace=False)
+                    rep_syms, _rep_choices = _reported(km)
+                    bogus = sorted(n for n in rep_syms & had_user if any(n == m and True for m, _v in marked))
+                    if bogus:
+                        res.fail(
+                            f"merge|user-value-judged-as-default|{policy}",
+                            f"policy {policy}: {bogus} already had a user value from the defaults file loaded before; the default-marked entry of the merged sdkconfig was nevertheless compared with it and reported as a changed default",
+                        )
+                        return res
 
             # ---------------- clause 1 / kconfig policy: F behaves like F' ----------------------------------
             policies = ("sdkconfig", "kconfig") if desc == "none" else ("kconfig",)
